@@ -160,6 +160,13 @@ def expectedK (p : Pool) (name : String) (v : List Nat) (xn yn : Int) : Option (
   else if name == "cplus" then okList ((Utf.stringFrom .utf8 .checkValidity (some (upToNul (slot xn)))).map (· ++ v))
   else if name == "plusch" then (Utf.writeUtf8 xn.toNat).map (v ++ ·)
   else if name == "chplus" then (Utf.writeUtf8 xn.toNat).map (· ++ v)
+  -- char16_t widens as it is, char through unsigned char, wchar_t through unsigned int
+  else if name == "plusch16" then (Utf.writeUtf8 (xn.toNat % 65536)).map (v ++ ·)
+  else if name == "ch16plus" then (Utf.writeUtf8 (xn.toNat % 65536)).map (· ++ v)
+  else if name == "pluschw" then (Utf.writeUtf8 (xn % 4294967296).toNat).map (v ++ ·)
+  else if name == "chwplus" then (Utf.writeUtf8 (xn % 4294967296).toNat).map (· ++ v)
+  else if name == "pluschc" then (Utf.writeUtf8 (xn % 256).toNat).map (v ++ ·)
+  else if name == "chcplus" then (Utf.writeUtf8 (xn % 256).toNat).map (· ++ v)
   else if name == "fill" then some (List.replicate xn.toNat (yn.toNat % 256))
   else if name == "fromint" then okList (Num.fromInt .s64 10 false xn)
   else if name == "via16" then okList ((Utf.stringTo .utf16 true v).bind fun u => Utf.stringFrom .utf16 .checkValidity (some u))
@@ -228,14 +235,22 @@ def toSOp (p : Pool) (r : RawOp) (cur : ObsStep) : Option SOp :=
       -- the value comes from the value model when one covers the operation, else from the observation
       let v := (expectedK p (r.str 2) (valueOf p s) (r.int 3) (r.int 4)).getD (observed o)
       some (.derive [(o, v)])
-    else (excOfName cur.exc).map .deriveThrow
+    else
+      -- an exception other than an injected bad_alloc where the value model says the operation returns a value:
+      -- the model keeps its own answer, so the step shows as a disagreement
+      match (if cur.exc == "bad_alloc" then none else expectedK p (r.str 2) (valueOf p s) (r.int 3) (r.int 4)) with
+      | some v => some (.derive [(o, v)])
+      | none => (excOfName cur.exc).map .deriveThrow
   | 'V' =>
     if cur.exc == "" then
       let ds := vDests r
       match expectedV p (r.str 1) (valueOf p o) (r.int 2) (r.int 3) with
       | some pieces => some (.derive (ds.zipIdx.map fun (d, i) => (d, pieces.getD i [])))
       | none => some (.derive (ds.map fun d => (d, observed d)))
-    else (excOfName cur.exc).map .deriveThrow
+    else
+      match (if cur.exc == "bad_alloc" then none else expectedV p (r.str 1) (valueOf p o) (r.int 2) (r.int 3)) with
+      | some pieces => some (.derive ((vDests r).zipIdx.map fun (d, i) => (d, pieces.getD i [])))
+      | none => (excOfName cur.exc).map .deriveThrow
   | 'Q' => if cur.exc == "" then some .query else (excOfName cur.exc).map .deriveThrow
   | _ => none
 
@@ -304,6 +319,7 @@ def judgeShape (obs : List ObsObj) : Option String :=
   obs.findSome? fun ob =>
     if ob.term != 0 then some s!"o{ob.id}: no NUL after the last byte"
     else if ob.units.length != ob.size then some s!"o{ob.id}: size differs from the bytes held"
+    else if ob.whereS.startsWith "!" then some s!"o{ob.id}: an observer disagrees with c_str()/size() ({ob.whereS})"
     else if ob.whereS.startsWith "A" || ob.whereS.startsWith "Z" then some s!"o{ob.id}: data() points into another object"
     else if ob.size < L && ob.whereS != "L" then some s!"o{ob.id}: short contents not inside the object"
     else if ob.size ≥ L && !ob.whereS.startsWith "H" then some s!"o{ob.id}: long contents not on the heap"
